@@ -226,6 +226,10 @@ def fluentLine (rs : RibSt) (fl : FlSt) (ts : List Tok) : RibSt × FlSt :=
           (cmpFields rs c (renderFields fs) impl, { fl with client := c' })
         | _, _, _ => (bad rs, fl)
       | _, _ => (bad rs, fl)
+    else if c = "fl.restart" then
+      -- Stop and Start of the same fluent client: the id sequence and the election id most
+      -- recently set are the client's, not the session's — nothing changes
+      (rs.covr "fl.restart", fl)
     else if c = "fl.final" then
       match args with
       | [l] =>
